@@ -41,8 +41,13 @@ def do_replay(path):
     text = body['script']
     if body.get('decisions'):
         text = 'decisions ' + ' '.join(str(int(x)) for x in body['decisions']) + '\n' + text
-    nat = D.run(tu, text, native=True)
     print('replay of', body['obligation'])
+    try:
+        nat = D.run(tu, text, native=True)
+    except D.HarnessCrash as e:
+        print('  native build aborts: ' + e.stderr[-400:])
+        print('REPRODUCED')
+        return 1
     if kind == 'real':
         got = nat.outv.get(body['lhs_out'])
         exp = D.hex2f(body['expected'])
@@ -54,6 +59,8 @@ def do_replay(path):
         a, b = nat.outv.get(body['out_a']), nat.outv.get(body['out_b'])
         print('  native %s = %s   %s = %s' % (body['out_a'], D.f2hex(a), body['out_b'], D.f2hex(b)))
         bad = D.f2hex(a) != D.f2hex(b)
+    elif kind == 'crash':
+        bad = False
     elif kind == 'int':
         got = nat.ints.get(body['key'])
         print('  native %s = %r expected %r' % (body['key'], got, body['expected']))
@@ -80,6 +87,11 @@ def main(argv=None):
     seed = int(os.environ.get('VERIF_SEED', '0') or 0)
     t0 = time.time()
     mod = importlib.import_module('props.' + a.prop)
+    for f in glob.glob(os.path.join(O.REPLAY_DIR, a.prop + '-*.json')) + glob.glob(os.path.join(O.REPLAY_DIR, 'crash-*.json')):
+        try:
+            os.unlink(f)
+        except OSError:
+            pass
     tus = mod.tus(tier)
     binfo = build.ensure(tus)
     typedef_warn = build.check_typedefs()
